@@ -26,7 +26,7 @@ def history_task(item):
     if fft:
         # grids from 1000 points take the FFT convolution branch; data stay inside a small dynamic range (C02's window)
         cfg.update(n=r.choice([2, 3, 4, 5]), grid=r.choice([1000, 1024, 1100]), style=r.choice(["narrow", "narrow", "flat"]), samples=r.choice([1, 2]))
-    ops = world_edit.gen_history(r, cfg["n"], n_moves=(r.choice([0, 3, 8, 15, 30]) if not fft else r.choice([0, 2, 5])), p_fault=r.choice([0.0, 0.1, 0.25]),
+    ops = world_edit.gen_history(r, cfg["n"], n_moves=(r.choice([0, 3, 8, 15, 30, 60]) if not fft else r.choice([0, 2, 5])), p_fault=r.choice([0.0, 0.1, 0.25]),
                                  outliers=cfg["outlier_prob"] > 0)
     probs, st = world_edit.run_history(cfg, ops, oracles)
     out = {"seed": seed, "cfg": cfg, "n_ops": len(ops), "stats": {k: v for k, v in st.items() if k != "state_set"},
